@@ -248,6 +248,34 @@ def run(ctx):
                 good = False
         r.check(good, "_util:%s#arms" % nm, "text writer does not map None to null and text to %s bytes" % enc, where(f, f.node))
 
+    gb = ctx.func("_util:group_by_topic_and_partition")
+    p0 = gb.params[0]
+    loops_ = [x for x in gb.body if isinstance(x, ast.For) and norm(x.iter) == p0 and isinstance(x.target, ast.Name) and not x.orelse]
+    okg = len(loops_) == 1
+    if okg:
+        tv = loops_[0].target.id
+        stores = [st for st in loops_[0].body if isinstance(st, ast.Assign) and len(st.targets) == 1 and isinstance(st.targets[0], ast.Subscript)]
+        okg = len(stores) == 1 and len(loops_[0].body) == 1
+        if okg:
+            t_ = stores[0].targets[0]
+            inner = t_.value
+            key_ok = norm(t_.slice) == "%s.partition" % tv and norm(stores[0].value) == tv
+            if isinstance(inner, ast.Subscript):  # out[t.topic][t.partition] = t  with out a defaultdict(dict)
+                acc_ = inner.value
+                dd = [x for x in gb.body if isinstance(x, ast.Assign) and norm(x.targets[0]) == norm(acc_) and isinstance(x.value, ast.Call) and
+                      norm(x.value.func).endswith("defaultdict") and x.value.args and norm(x.value.args[0]) == "dict"]
+                okg = key_ok and norm(inner.slice) == "%s.topic" % tv and len(dd) == 1
+            elif isinstance(inner, ast.Call) and call_name(inner) == "setdefault":  # out.setdefault(t.topic, {})[t.partition] = t
+                okg = key_ok and len(inner.args) == 2 and norm(inner.args[0]) == "%s.topic" % tv and isinstance(inner.args[1], ast.Dict) and not inner.args[1].keys
+                acc_ = inner.func.value
+            else:
+                okg = False
+            rets_ = [x for x in gb.body if isinstance(x, ast.Return)]
+            okg = okg and len(rets_) == 1 and norm(rets_[0].value) == norm(acc_)
+    r.check(okg, "_util:group_by_topic_and_partition#total", "the grouping primitive does not store every payload under its own topic and partition "
+            "(one pass over the list, result[topic][partition] = payload)", where(gb, gb.node),
+            "a topic that re-appears non-adjacently in the payload list (t1/p0, t2/p0, t1/p1) loses its earlier partitions: they are in no request")
+
     # ---- R3 message and message-set
     r = ctx.rule("R3", "message formats 0 and 1 and the message-set entry layout equal the schema", 4, "F")
     em = ctx.func(KCQ + "._encode_message")
